@@ -19,7 +19,7 @@ RULE = ('families of 1-4 delegation models: the ADMs of 2-3 generated site aggre
         'permutations (<=4 models), merge;unmerge for every member at every position, and random interleavings of '
         'merge/unmerge/snapshot/rollback of length <=10. One evaluation = one merge order or one interleaving; distinct by (family '
         'hash, order/ops); non-trivial when at least two models share an element')
-REQUIRED = ['families', 'orders', 'clause:union', 'clause:contributors', 'clause:delegations-keyed-by-model', 'clause:order-independent',
+REQUIRED = ['model-keyed-by-its-own-graph-id', 'families', 'orders', 'clause:union', 'clause:contributors', 'clause:delegations-keyed-by-model', 'clause:order-independent',
             'clause:sources-untouched', 'clause:merge-unmerge-inverse', 'clause:rollback-restores', 'shared-elements-seen',
             'interleavings', 'shared-edges-seen']
 ASSUMPTIONS = ['merge/unmerge run on a harness class NxCBM(NetworkXPropertyGraph, ABCCBMPropertyGraph) that borrows the real functions '
@@ -110,20 +110,26 @@ def build_family(ctx, imp, tag):
     imp.delete_all_graphs()
     d = 'broker-1'
     names = rng.sample(['RENC', 'UKY', 'LBNL', 'STAR'], rng.randrange(1, 4))
-    sites = [subgen.gen_site(rng, n, [d], nworkers=rng.randrange(1, 3)) for n in names]
+    # unusual but legal: a model whose delegation id already equals the graph id it will be merged under
+    own = {n: (rng.random() < 0.35) for n in names + ['NET']}
+    did = lambda n: f'adm-{n}-{tag}' if own[n] else d
+    sites = [subgen.gen_site(rng, n, [did(n)], nworkers=rng.randrange(1, 3)) for n in names]
     # the network aggregate contributes at least one element of its own (an inter-site link); a model that is
     # entirely contained in the others is not generated (updating 'all nodes' of an emptied temporary graph is
     # backend-specific and outside the statement)
-    net = subgen.gen_network(rng, sites, [d]) if len(sites) >= 2 else None
+    net = subgen.gen_network(rng, sites, [did('NET')]) if len(sites) >= 2 else None
     has_link = net is not None and any(op['op'] == 'add_link' for op in net.script)
     models = sites + ([net] if net and net.delegations and has_link else [])
     adms = []
     for m in models:
         topo = subgen.build(imp, m)
         arm = subgen.arm_of(topo)
-        res = arm.generate_adms(delegation_guids={d: f'adm-{m.name}-{tag}'})
-        if d in res:
-            adms.append(res[d])
+        dm = did(m.name)
+        res = arm.generate_adms(delegation_guids={dm: f'adm-{m.name}-{tag}'})
+        if own[m.name]:
+            ctx.count('model-keyed-by-its-own-graph-id')
+        if dm in res:
+            adms.append(res[dm])
         arm.delete_graph()
     return adms, [m.script for m in models]
 
